@@ -72,4 +72,18 @@ Faults(seed) ==
   {[seed |-> seed.name, kind |-> "trunc", at |-> p, off |-> 0, width |-> 0, val |-> 0, field |-> "boundary"] : p \in TruncPoints(lay, seed.len)}
   \cup UNION { {[seed |-> seed.name, kind |-> "set", at |-> 0, off |-> lay[i][2], width |-> lay[i][3], val |-> v, field |-> lay[i][1]] : v \in FieldValues(seed.head, seed.tail, seed.len, lay[i])}
                : i \in {j \in 1..Len(lay) : lay[j][4] /\ lay[j][2] >= 0 /\ lay[j][2] + lay[j][3] <= seed.len} }
+
+\* Composed faults: a header field is set to one of its values, the layout is RE-COMPUTED from the changed header (the value
+\* may change which blocks exist and how long they are), and the file is then truncated at every boundary (-1/0/+1) of that
+\* new layout.  A length check that uses one reading of a field while the slicing uses another only shows under such a pair.
+Pow256(k) == IF k = 0 THEN 1 ELSE IF k = 1 THEN 256 ELSE IF k = 2 THEN 65536 ELSE 16777216
+ApplySet(h, off, w, v) == [k \in 1..Len(h) |-> IF k - 1 >= off /\ k - 1 < off + w THEN (v \div Pow256(k - 1 - off)) % 256 ELSE h[k]]
+PairFaults(seed) ==
+  LET lay == Layout(seed.ext, seed.name, seed.head, seed.tail, seed.len)
+      hdr == {j \in 1..Len(lay) : lay[j][4] /\ lay[j][2] >= 0 /\ lay[j][2] + lay[j][3] <= Len(seed.head) /\ lay[j][2] + lay[j][3] <= seed.len}
+  IN UNION { UNION { LET h2 == ApplySet(seed.head, lay[i][2], lay[i][3], v)
+                         lay2 == Layout(seed.ext, seed.name, h2, seed.tail, seed.len)
+                     IN {[seed |-> seed.name, kind |-> "set+trunc", at |-> p, off |-> lay[i][2], width |-> lay[i][3], val |-> v, field |-> lay[i][1]]
+                          : p \in {q \in TruncPoints(lay2, seed.len) : q > lay[i][2]}}
+                     : v \in FieldValues(seed.head, seed.tail, seed.len, lay[i]) } : i \in hdr }
 =============================================================================
